@@ -614,12 +614,14 @@ impl State {
 
         match f(prev) {
             Ok(next) => {
-                self.stored_locations.track(location, threads);
-                // Track a store operation happened
-                self.track_store(threads);
-
                 // Perform load synchronization using the `success` ordering.
                 self.stores[index].sync.sync_load(threads, success);
+
+                // Track a store operation happened. The store half of the
+                // operation comes after the load half: what the load acquired
+                // is already ordered before the store.
+                self.stored_locations.track(location, threads);
+                self.track_store(threads);
 
                 // Store the new value, initializing with the `sync` value from
                 // the load. This is our (hacky) way to establish a release
